@@ -13,19 +13,19 @@ CHECKS = {
     "C11": {
         "level": "exploration",
         "technique": "lockstep differential monitor (FFI-driven instance vs Rust-API-driven instance) with per-call flag/bytes/verdict and full-observation comparison, run natively and under AddressSanitizer (valgrind memcheck and a Miri run of the FFI buffer handling in thorough); process death = violation; a second lockstep on the stateless build (constructor sequences with different witness graphs)",
-        "text": "Generated sequences of all exported FFI functions (in/out-of-range indices, odd buffers, batch and sequential batch updates, metadata, flush, set_tree, hashing, key generation, valid/invalid proof requests, verification of valid/tampered/truncated inputs, recovery, new/new_with_params with bad arguments) run on an instance reached only through raw pointers with uninitialised outputs, in lockstep with a twin driven through RLN methods; success flags, output bytes (relations for randomised outputs incl. cross-verification of proofs), verdicts and the observation (root, leaf count, 28 leaves, metadata) of both instances are compared after every call, and a failed call must leave the observation unchanged. The workload is repeated on an ASan build so that every pointer/length handed out is actually dereferenced under the sanitizer; thorough adds valgrind memcheck (uninitialised output bytes) on a proof-free sequence and Miri on the FFI buffer handling around ffi::hash, the byte codecs and the graph operators (the only parts Miri can reach).",
+        "text": "Generated sequences of all exported FFI functions (in/out-of-range indices, odd buffers, batch and sequential batch updates, metadata, flush, set_tree, hashing, key generation, valid/invalid proof requests, verification of valid/tampered/truncated inputs, recovery, new/new_with_params with bad arguments) run on an instance reached only through raw pointers with uninitialised outputs, in lockstep with a twin driven through RLN methods; success flags, output bytes (relations for randomised outputs incl. cross-verification of proofs), verdicts and the observation (root, leaf count, 28 leaves, metadata) of both instances are compared after every call, and a failed call must leave the observation unchanged. The workload is repeated on an ASan build so that every pointer/length handed out is actually dereferenced under the sanitizer; thorough adds valgrind memcheck (uninitialised output bytes) on a proof-free sequence and Miri on the FFI buffer handling around ffi::hash, the byte codecs and the graph operators (the only parts Miri can reach). Every third one-input-one-output call is made in place (the same Buffer variable as input and output).",
         "note": "Trusted: catch_unwind on the Rust side defines 'the Rust API returns'; leak checking off (outputs are leaked by design).",
     },
     "C18": {
         "level": "exploration",
-        "technique": "transcript equality across RAYON_NUM_THREADS in {1,2,4,16} (separate processes) + shared-instance monitor (2..64 threads, &RLN and FFI *const RLN, results vs sequential twins, observed call-kind overlaps) + storm of cheap pure calls (2..16 threads over a few related inputs, compared with from-spec reference values, overlap measured) + fresh-process first-use races + recreate loop (also while the previous instance is still alive); ThreadSanitizer/AddressSanitizer builds in thorough",
-        "text": "Four processes with different rayon pool sizes run the same workload (24 batch updates on a persistent tree plus structured batches with mirrored pairs, equal subtrees and default values, witnesses, proof values, proofs with verdicts, a fixed corpus of valid/tampered/truncated messages) and must produce the same transcript hash; 85 read-only queries of every kind are answered sequentially and then issued at random by 2..64 threads from a start barrier on one shared instance (also through the FFI), every result compared with its sequential twin; 1.8 M (quick) / 18 M (thorough) Poseidon / hash-to-field / seeded-keygen calls from 2..16 threads walking over the same eight related inputs are compared with reference values (a race window of nanoseconds needs this call density); the bundled witness graph and a variant are evaluated by 8 threads at once; fresh instances get their very first calls from 8 barrier-released threads; fresh processes race the first use of the lazy globals; 60..600 create-write-flush-drop-create cycles on one storage location must open with the model's state (latency and lock retries reported). Thorough repeats the shared-instance and batch workloads under TSan (reports attributed to repository frames only; dependency-internal reports listed) and the FFI variant under ASan.",
+        "technique": "transcript equality across worker-pool sizes (RAYON_NUM_THREADS in {1,2,3,4,5,7,16} and children confined to 3 / 6 processors with the pool size left to the machine; separate processes) + shared-instance monitor (2..64 threads, &RLN and FFI *const RLN, results vs sequential twins, observed call-kind overlaps) + storm of cheap pure calls (2..16 threads over a few related inputs, compared with from-spec reference values, overlap measured) + fresh-process first-use races + recreate loop (also while the previous instance is still alive); ThreadSanitizer/AddressSanitizer builds in thorough",
+        "text": "Nine processes with different worker-pool sizes (explicit sizes 1,2,3,4,5,7,16; two children confined to 3 / 6 processors) run the same workload (24 batch updates on a persistent tree plus structured batches with mirrored pairs, equal subtrees and default values, batches of 2049..7919 leaves whose length no small worker count divides through set_leaves_from / atomic_operation / init_tree_with_leaves, leaf counts, witnesses, proof values, proofs with verdicts, a fixed corpus of valid/tampered/truncated messages) and must produce the same transcript hash; 85 read-only queries of every kind are answered sequentially and then issued at random by 2..64 threads from a start barrier on one shared instance (also through the FFI), every result compared with its sequential twin; 1.8 M (quick) / 18 M (thorough) Poseidon / hash-to-field / seeded-keygen calls from 2..16 threads walking over the same eight related inputs are compared with reference values (a race window of nanoseconds needs this call density); the bundled witness graph and a variant are evaluated by 8 threads at once; fresh instances get their very first calls from 8 barrier-released threads; fresh processes race the first use of the lazy globals; 60..600 create-write-flush-drop-create cycles on one storage location must open with the model's state (latency and lock retries reported). Thorough repeats the shared-instance and batch workloads under TSan (reports attributed to repository frames only; dependency-internal reports listed) and the FFI variant under ASan.",
         "note": "Schedules are sampled. TSan does not model sled's stand-alone fences: reports whose stacks are entirely inside sled/crossbeam/rayon are suppressed but counted.",
     },
     "C16": {
         "level": "fault_enumeration",
         "technique": "fault enumeration with a cfg(zerokit_verif) fail-after-N storage hook (every put/put_batch/flush of each short history fails once) + reopen monitor against the ideal model + SIGKILL crash points of a writer process + reopen while another process holds the storage lock + real write failures via RLIMIT_FSIZE + fault-then-retry (refused call repeated, full state incl. root compared after reopen) + location check for absolute and relative configured paths",
-        "text": "For short generated histories through RLN on persistent trees the harness counts the storage operations of an unarmed run and replays the history once per storage operation with the fault armed there (exhaustive for these histories): the API call hit must return Err, earlier calls keep their results, and after disarm+flush+drop+reopen every leaf, the leaf count and the metadata acknowledged before the failed call must be readable. Longer histories are flushed, dropped and reopened at four points under 6 storage configurations and 4 path styles and must equal the model, which the reopened tree keeps following. A writer process is SIGKILLed after an acknowledged flush - two thirds of the kills at a quiescent point right after the acknowledgement, enumerating the kind of update segment the flush closed (mixed, batch-only without growth, single-leaf-only, metadata-only, batch-then-delete) x depth x configuration, the rest in flight 0..120 ms later - and the recovered state must contain everything acknowledged. Reopen is attempted while another process holds the lock for 10..500 ms. Every other injected fault position repeats the refused call with faults off: if it is acknowledged, leaves, count, metadata and root must equal the model after flush + reopen (known finding: leaf count not persisted again after its persisting write failed once - vacp2p_pmtree). A writer process whose RLIMIT_FSIZE is lowered after its first acknowledged flush makes sled's writes really fail (EFBIG): nothing may panic and everything reported successful and flushed must be readable after reopen. Known finding: reset on a persistent instance.",
+        "text": "For short generated histories through RLN on persistent trees the harness counts the storage operations of an unarmed run and replays the history once per storage operation with the fault armed there (exhaustive for these histories): the API call hit must return Err, earlier calls keep their results, and after disarm+flush+drop+reopen every leaf, the leaf count and the metadata acknowledged before the failed call must be readable. Longer histories are flushed, dropped and reopened at four points under 6 storage configurations and 4 path styles and must equal the model, which the reopened tree keeps following. A writer process is SIGKILLed after an acknowledged flush - two thirds of the kills at a quiescent point right after the acknowledgement, enumerating the kind of update segment the flush closed (mixed, batch-only without growth, single-leaf-only, metadata-only, batch-then-delete) x depth x configuration, the rest in flight 0..120 ms later - and the recovered state must contain everything acknowledged. Reopen is attempted while another process holds the lock for 10..500 ms. Every other injected fault position repeats the refused call with faults off: if it is acknowledged, leaves, count, metadata and root must equal the model after flush + reopen (known finding: leaf count not persisted again after its persisting write failed once - vacp2p_pmtree). A writer process whose RLIMIT_FSIZE is lowered after its first acknowledged flush makes sled's writes really fail (EFBIG): nothing may panic and everything reported successful and flushed must be readable after reopen. Metadata values include all-zero bytes of several lengths, all-ones, zero-padded and 4 kB / 70 kB values; one leaf value in sixteen is the default value 0. Known finding: reset on a persistent instance.",
         "note": "Trusted: the hook returns the adapter's own error value at the entry of put/put_batch/close (same path as a failing sled call); the effect of the failed/in-flight operation is excluded; SIGKILL is a process crash, not a power failure.",
     },
     "C17": {
@@ -43,13 +43,13 @@ CHECKS = {
     "C02": {
         "level": "exploration",
         "technique": "mutation monitor over accepted messages: every decoded field, signal, declared length, all 1024 proof bits, verifier tree and root sets are modified; verification must never return true; positive controls restore acceptance; run on the default, fullmerkletree, Optimal-tree and arkzkey builds",
-        "text": "For accepted messages from different strata every public value is replaced (+-1, 0, p-1, random, another field of the message), the signal is flipped/truncated/extended and its declared length changed with a consistent buffer, every single bit of the proof part is flipped (all 1024 in thorough and for the first message in quick), the verifier's tree is changed (unrelated/far leaf, member leaf overwritten/deleted) and restored (control), and root sets of size 1..8 without the root, near misses, and with it at every position (control) are supplied.",
+        "text": "For accepted messages from different strata every public value is replaced (+-1, 0, p-1, random, another field of the message), the signal is flipped/truncated/extended and its declared length changed with a consistent buffer, every single bit of the proof part is flipped (all 1024 in thorough and for the first message in quick), the verifier's tree is changed (unrelated/far leaf, member leaf overwritten/deleted) and restored (control), and root sets of size 1..8 without the root, near misses, and with it at every position (control) are supplied. Every modified public value is also offered with the root condition made to hold for the modified message (root set = the carried value alone / a window with it and the genuine root / empty), and after every change of the verifier's tree the message with its carried root rewritten to the new tree root: only the binding of the zk-proof to the carried values can refuse these.",
         "note": "Trusted: Groth16 soundness. Panics count as 'not true' (crash-freedom is C13). Aliases of the same field value are excluded here and decided by C13.",
     },
     "C12": {
         "level": "exploration",
         "technique": "outcome classifier {Ok+verifies, Ok+fails, Err, panic} over hostile proving requests, with rln.wasm partitioning well-formed requests into satisfiable/unsatisfiable; workload repeated on a build with integer-overflow checks on; run on the default, fullmerkletree, Optimal-tree and arkzkey builds",
-        "text": "generate_rln_proof, generate_rln_proof_with_witness and prove (and, for malformed Merkle paths, the typed route: a witness decoded from an independently built JSON form handed to protocol::generate_proof / proof_values_from_witness) are driven with message ids at/above the limit, limits outside the circuit window, positions outside the tree, requests truncated at every length, oversized declared lengths and vector counts, witnesses with wrong path lengths / non-binary directions / trailing bytes, and random bytes; a returned message must verify (raw, carried root, same tree for members), unsatisfiable requests must be errors, and no call may panic - on the ordinary optimised build and on a build with integer-overflow checks on. Known finding: limits above 2^16 outside the circuit window.",
+        "text": "generate_rln_proof, generate_rln_proof_with_witness and prove (and, for malformed Merkle paths, the typed route: a witness decoded from an independently built JSON form handed to protocol::generate_proof / proof_values_from_witness) are driven with message ids at/above the limit, limits outside the circuit window, positions outside the tree, requests truncated at every length, oversized declared lengths and vector counts, witnesses with wrong path lengths / non-binary directions / trailing bytes, and random bytes; a returned message must verify (raw, carried root, same tree for members), unsatisfiable requests must be errors, and no call may panic - on the ordinary optimised build and on a build with integer-overflow checks on; field values of valid requests / witnesses are also submitted in the non-canonical encodings v + k*p (each field in turn), which the prover may refuse or prove for v, but never answer with a message verification refuses. Known finding: limits above 2^16 outside the circuit window.",
         "note": "Trusted: rln.wasm as the satisfiability oracle. Err on a satisfiable request is not a violation here (C01 decides completeness).",
     },
     "C13": {
@@ -61,13 +61,13 @@ CHECKS = {
     "C06": {
         "level": "exploration",
         "technique": "model-based runtime monitor: every backend (Full, Optimal with Poseidon and a toy hasher, PmTree temporary/persistent, RLN-level API in the pm/optimal/full builds) stepped in lockstep with the ideal hash tree (reference Poseidon), per-step root/leaf-count and periodic full observation",
-        "text": "Thousands of generated histories over {set, delete, append, write_range, reset, compute_root} at depths 1..20 (positions inside/at/beyond capacity, empty ranges, ranges ending at capacity or crossing the middle, overwrites, deletes above the mark) are applied to each backend and to an independent ideal-tree model; after every operation root and leaf count, and every few operations / after every rejected operation all leaves and subtree roots (small depths) or touched+boundary+sampled ones are compared. Histories are sampled, not enumerated.",
+        "text": "Thousands of generated histories over {set, delete, append, write_range, reset, compute_root} at depths 1..20 (positions inside/at/beyond capacity, empty ranges, ranges ending at capacity or crossing the middle, overwrites, deletes above the mark) are applied to each backend and to an independent ideal-tree model; after every operation root and leaf count, and every few operations / after every rejected operation all leaves and subtree roots (small depths) or touched+boundary+sampled ones are compared; subtree-root queries outside the tree (level below the leaves, position beyond capacity) must be refused. Histories are sampled, not enumerated.",
         "note": "Trusted: the ideal model and the reference Poseidon; return codes are not compared, only observable state; a panic of a non-batch operation is treated as a rejection whose state must be unchanged.",
     },
     "C07": {
         "level": "exploration",
         "technique": "model-based proof monitor in states reached by generated histories: structural checks, recomputation with the reference hash, tamper matrix (each sibling/bit) with verdicts predicted by the model, tree's own verify (cfg(zerokit_verif) constructor for PmTree proofs)",
-        "text": "In the states reached by generated histories (after deletes, batch writes, reopen) every position (depth <= 4) or touched/boundary/sampled positions get their membership proof checked: length = depth, LSB-first position decoding, siblings equal to the model's, root recomputed from the stored leaf, acceptance by the backend's verify, rejection for a different leaf, and for each tampered sibling (+1, random, swapped) and flipped direction bit the verdict the model predicts. RLN::get_proof bytes are decoded by the independent decoder.",
+        "text": "In the states reached by generated histories (after deletes, batch writes, reopen) every position (depth <= 4) or touched/boundary/sampled positions get their membership proof checked: length = depth, LSB-first position decoding, siblings equal to the model's, root recomputed from the stored leaf, acceptance by the backend's verify, rejection for a different leaf, and for each tampered sibling (+1, random, swapped) and flipped direction bit the verdict the model predicts; proofs with a level dropped (top / bottom) or added must not be accepted. RLN::get_proof bytes are decoded by the independent decoder.",
         "note": "Trusted: ideal model + reference Poseidon; PmTreeProof::verif_from_parts hook (constructor only).",
     },
     "C08": {
@@ -85,7 +85,7 @@ CHECKS = {
     "C03": {
         "level": "exploration",
         "technique": "relation monitor over generated message pairs (recover_id_secret == secret, nullifier relations) with reference-Poseidon cross-check; panics caught",
-        "text": "Thousands of message pairs built from zerokit's own proof-value functions (boundary and random secrets / external nullifiers, all message-id classes, signal pairs incl. empty, degenerate and forged equal-x pairs) plus a few full generate_rln_proof pairs are fed to recover_id_secret; the oracle checks secret equality, nullifier equalities/inequalities against H(H(s,e,m)) from the reference Poseidon, and crash-freedom on degenerate pairs. Sampled input space.",
+        "text": "Thousands of message pairs built from zerokit's own proof-value functions (boundary and random secrets / external nullifiers, all message-id classes, signal pairs incl. empty, degenerate and forged equal-x pairs) plus a few full generate_rln_proof pairs are fed to recover_id_secret; the oracle checks secret equality, nullifier equalities/inequalities against H(H(s,e,m)) from the reference Poseidon, and crash-freedom on degenerate pairs; second external nullifiers are neighbours, unrelated values and values whose 32-byte encodings differ from the first in exactly one byte (every byte position). Sampled input space.",
         "note": "Trusted: reference Poseidon (anchored on circomlib vectors), Keccak collision resistance.",
     },
     "C04": {
@@ -97,7 +97,7 @@ CHECKS = {
     "C05": {
         "level": "exploration",
         "technique": "differential monitor against the reference circom witness generator (rln.wasm under node): full 5844-vector digest equality, shuffled input order, repeated evaluation",
-        "text": "Thousands of 46-element assignments (every input position at every limb/modulus boundary value, ids around each power of two, limits incl. >2^16 corner, bit patterns, random) are run through rln.wasm; for those it accepts, SHA-256 of zerokit's complete witness must equal the reference's, with named inputs supplied in shuffled order and re-evaluated in canonical order; on mismatch the first differing position is located.",
+        "text": "Thousands of 46-element assignments (every input position at every limb/modulus boundary value, ids around each power of two, limits incl. >2^16 corner, bit patterns, random) are run through rln.wasm; for those it accepts, SHA-256 of zerokit's complete witness must equal the reference's, with named inputs supplied in shuffled order and re-evaluated in canonical order; on mismatch the first differing position is located. After every fourth accepted case the same thread makes a call the evaluator refuses (wrong vector length, unknown signal) carrying the values of a related assignment and then evaluates that assignment, compared the same way.",
         "note": "Trusted: rln.wasm + node's WebAssembly engine; SHA-256. Rejected assignments are out of the quantifier (counted).",
     },
     "C09": {
@@ -109,19 +109,19 @@ CHECKS = {
     "C10": {
         "level": "exploration",
         "technique": "round-trip monitor + byte-for-byte comparison with an independent encoder/decoder; truncation/extension sweep of witness encodings",
-        "text": "Every codec pair is exercised on boundary and random values (Fr incl. leading-zero encodings, vectors of length 0..1000, byte vectors to 1 MB, usize at 2^32/2^63 boundaries, witnesses of several depths, proof values, identity tuples, JSON forms); bytes are compared with an encoder written from the documented layouts; outputs of a live instance are decoded by the independent decoder; every truncation length and 1..40 trailing bytes of witness encodings must not decode.",
+        "text": "Every codec pair is exercised on boundary and random values (Fr incl. leading-zero encodings, vectors of length 0..1000, byte vectors to 1 MB, usize at 2^32/2^63 boundaries, witnesses of several depths, proof values, identity tuples, JSON forms); bytes are compared with an encoder written from the documented layouts; outputs of a live instance are decoded by the independent decoder; every truncation length and 1..40 trailing bytes of witness encodings - also of encodings whose index vector is shorter or longer than the path, and whether or not the full encoding decodes - must not decode; RLN::get_rln_witness_json / get_rln_witness_bigint_json, rln_witness_from_values on tree proofs and str_to_fr (decimal / hexadecimal text) are compared with the independent encoders.",
         "note": "Trusted: transcription of the documented layouts. A panic on a truncated witness counts as 'did not succeed' (crash-freedom is C12/C13).",
     },
     "C14": {
         "level": "exploration",
         "technique": "relation monitor (reference Poseidon) + independent re-derivation of seeded identities (Keccak-256/ChaCha20/rejection sampling) + cross-thread/process/entry-point equality + distinctness sets",
-        "text": "Seeded identities for boundary seeds (empty, 1 byte, block boundaries, one-bit differences, trailing zero) and random seeds are compared with an independent derivation and the documented vectors, re-derived in 16 threads, 4 child processes, through RLN methods and the FFI; unseeded identities from all entry points are checked for the commitment relations, canonical encodings and distinctness.",
+        "text": "Seeded identities for boundary seeds (empty, 1 byte, block boundaries, one-bit differences, trailing zero) and random seeds are compared with an independent derivation and the documented vectors, re-derived in 16 threads, 4 child processes, through RLN methods and the FFI; unseeded identities from all entry points are checked for the commitment relations, canonical encodings and distinctness; unseeded calls made right after 0..3 seeded calls on the same thread (8 threads making the same calls) must lie outside the seeded generator's stream (first 24 elements, computed from the specification) and be distinct across threads.",
         "note": "Trusted: reference derivation per DESIGN.md Appendix A; documented vectors = pinned values in rln/tests.",
     },
     "C20": {
         "level": "exploration",
         "technique": "random-program differential monitor: generated witness graphs evaluated by zerokit (serialize -> calc_witness, graph::evaluate) vs big-integer reference interpreter; storage round-trip equality; workload repeated on a build with integer-overflow checks on",
-        "text": "Tens of thousands of random well-formed DAGs (all supported operators, 1..5000 nodes, repeated outputs, arbitrary input layouts, three node layouts incl. scattered Input nodes) are serialised, deserialised (equality) and evaluated through both paths on boundary-heavy and random assignments with shuffled named inputs; outputs are compared with a node-by-node reference interpretation; divergences are localised to the first differing node.",
+        "text": "Tens of thousands of random well-formed DAGs (all supported operators, 1..5000 nodes, repeated outputs, arbitrary input layouts, three node layouts incl. scattered Input nodes) are serialised, deserialised (equality) and evaluated through both paths on boundary-heavy and random assignments with shuffled named inputs; outputs are compared with a node-by-node reference interpretation; divergences are localised to the first differing node; the in-memory graph is also evaluated with every other constant held as a plain integer node (Node::Constant).",
         "note": "Trusted: circomref semantics (shared with C19). Graphs referencing undeclared input positions are not generated (undefined by the statement).",
     },
     "C19": {
